@@ -13,11 +13,18 @@ Definition ParamsSt (ps : list ty) : Prop :=
   wf_params_with wfb ps = true -> forall post,
   Ev (CFnArgLoop (join [tk1 KComma] (map R ps) (tk1 KRParen :: post))) (0, post).
 
+Definition tparamsR (tps : list ty) (post : toks) : toks :=
+  match tps with [] => post | _ => tk1 KLt :: join [tk1 KComma] (map R tps) (push_gt mg post) end.
+Definition TParamsSt (tps : list ty) : Prop :=
+  wf_tparams_with wfb tps = true -> forall post, is KLt post = false ->
+  exists code, Ev (CParams false (tparamsR tps post)) (code, post).
+
 Definition Pst (t : ty) : Prop :=
   Kst t /\
   match t with
   | TElem _ _ _ _ x | TParam _ _ _ _ x | TAsserts _ _ x | TMProp _ _ x _ => Kst x
-  | TMMeth _ _ ps _ ret _ => ParamsSt ps /\ RetSt ret
+  | TMMeth _ _ tps ps _ ret _ => TParamsSt tps /\ ParamsSt ps /\ RetSt ret
+  | TTParam _ _ _ _ c d => Kst c /\ Kst d
   | TMIndex _ _ kt vt _ => Kst kt /\ Kst vt
   | TMMapped _ _ _ src _ ast _ _ vt _ => Kst src /\ Kst ast /\ Kst vt
   | _ => True
